@@ -305,7 +305,7 @@ pub fn run(args: &Args) -> i32 {
 	} else {
 		ev.set("witnesses", json!(crate::runner::witnesses()));
 	}
-	ev.assume("manager persistence policy: eager (the manager is written whenever it asks for persistence after a call returns); lazier snapshots are covered only by the crash-inside points");
+	ev.assume("manager persistence policy: eager (written whenever it asks for persistence after a call returns) except in the lagging-manager scenarios, where the writes stop at any one point and never resume before the crash; a manager that skips some writes and later resumes is not explored");
 	ev.assume("no reorg while the node is down; the signer state survives the crash like an external signer");
 	mc_common::findings::conclude("C10", &r.violations, &mut ev)
 }
